@@ -156,9 +156,26 @@ impl Tree {
 
     /// Add a new node to the tree.
     pub fn add(&mut self, node: Node) -> NodeId {
+        let mut node = node;
+        // A node copied out of a tree still names its old parent:
+        // it enters this tree without one.
+        node.parent = None;
+        node.depth = 0;
+
+        self.push_node(node)
+    }
+
+    /// Stores a node in the arena. Only the payload of the node is kept:
+    /// links to children and cached values of a node that was copied out
+    /// of a tree refer to that tree's arena and are dropped.
+    fn push_node(&mut self, node: Node) -> NodeId {
         let idx = self.nodes.len();
         let mut node = node;
         node.id = idx;
+        node.children.clear();
+        node.child_edges = None;
+        node.subtree_distances = Default::default();
+        node.deleted = false;
         self.nodes.push(node);
 
         idx
@@ -203,7 +220,7 @@ impl Tree {
         node.set_parent(parent, edge);
         node.set_depth(self.get(&parent)?.depth + 1);
 
-        let id = self.add(node);
+        let id = self.push_node(node);
 
         self.get_mut(&id)?.set_id(id);
         self.get_mut(&parent)?.add_child(id, edge);
